@@ -17,6 +17,10 @@ CHECKS = {
    text="For each of the 15 parameter types a literal grammar is enumerated completely and executed through the real macro-generated dispatcher of a typed interface (260 handlers): boundary magnitudes (0..300, 2^k-1..2^k+1 for k<=65, 10^k, type MAX/MIN -1..+1) x sign x leading zeros x decimal/#H/#Q/#B notations in both cases, real spellings of integers, all strings of length <=5 over {+ - 0 1 2 9 . E}, 15 000 decimal reals per float type around every rounding boundary (2^24+1, 2^53+1, MAX + half ulp, smallest subnormal and its half), booleans, strings over a separator alphabet, blocks with every byte value, every other data kind on every type, ill-formed lists; all 225 ordered type pairs, declared arity 0..10 against 0..12 supplied parameters, and a mixed 10-parameter handler with each position varied, removed, inserted and swapped. The delivered value must equal the exact value computed by the reference (i128 integers; reals as exact rationals, correct rounding decided by big-unsigned comparison with the half-way points), or the handler must not be called and exactly one error of the named class be reported.",
    note="Permissive classes (delivered exactly or rejected) are fixed in DESIGN.md 3.3; error numbers are checked only for the classes the property names. The big-unsigned is self-tested against u128 at start-up.",
    technique="exhaustive enumeration of literal grammars through the real dispatcher and conversions, exact-arithmetic reference"),
+ "C04": dict(engine="val-enum+msg-enum",
+   text="Every value of a value grammar per response type is formatted by the real Response::write_response into a pass-through writer, heapless::Vec writers and (package mc-std, feature std) the std Vec writer: every u8/i8/u16/i16 and boundary sets for wider integers, bool, every f32 sign/exponent value x 4101 mantissa patterns (quick) or all 2^32 bit patterns (thorough), f64 sign/exponent values x 157 structured mantissas, all strings of length <=4 (thorough 5) over {a \" ' , ; newline e-acute emoji NUL} for &str / heapless::String / String, blocks of length 0..1000 with every byte value first and last and all two-byte blocks, character data, tuples of arity 2..4, nested tuples, slices and heapless vectors of length 0..3, Error and (). The bytes must be identical across writers and must decode - by an IEEE 488.2 response decoder written from the property text, reals by exact big-unsigned comparison with the half-way points - to exactly the returned value (NaN / infinity sentinels, embedded quotes doubled, block length fields). Through run: one query per response type and all 16 000 messages of <=3 units mixing successful queries, failing handlers, rejected arguments, undefined headers and commands must produce exactly one response, newline and flush per successful query, in order, and nothing else.",
+   note="f64 uses structured exponent/mantissa sets instead of all 2^64 patterns; wide integers use boundary sets. Decoder and exact-arithmetic oracle are part of the trusted harness (self-tested).",
+   technique="exhaustive enumeration of value grammars through the real formatting code with an exact decoding oracle; exhaustive enumeration of short compound messages through run"),
  "C05": dict(engine="lex-sweep+env-enum",
    text="All 7.5e8 token strings of <=6 tokens (thorough: <=7) over the 30-token alphabet through Interface::run with a bounded writer, shorter strings with five more writers, all <=3-unit query messages with every writer capacity 0..=64, and process::<N> for N in 1..=16,31..33,64,65 (thorough: up to 128) over message-pool streams and all short token strings with all compositions into reads (short streams) or <=2 cuts: no panic, run returns a suffix, no read into an empty buffer, hook invariant proc_offset<=read_offset<=N, termination only through the transport error, watchdog for non-consuming loops.",
    note="Handlers of the harness never panic; executor polls unconditionally (no lost wake-ups modelled); the random/coverage-guided part of the property's quantifier is outside this technique and not claimed.",
